@@ -403,6 +403,36 @@ func programs() []program {
 		touch(resp)
 		_ = h.Len() + t.Len()
 	})
+	// one wrapped connection used by several callers at once, every call shape - including a unary method opened
+	// as a stream (a proxy does that) and a method that does not exist: a connection's tables are read-only
+	add("wrap/one connection: unary-as-stream||unary-as-stream", func() {
+		conn := wrap.ServerToClient(tp.TestApi_ServiceDesc, &apiServer{})
+		asStream := func() {
+			cs, err := conn.NewStream(bg, &grpc.StreamDesc{}, "/sc.go.test.TestApi/Unary")
+			if err != nil {
+				return
+			}
+			if cs.SendMsg(&tp.UnaryRequest{Msg: "m"}) != nil {
+				return
+			}
+			cs.CloseSend()
+			resp := &tp.UnaryResponse{}
+			if cs.RecvMsg(resp) == nil {
+				touch(resp)
+			}
+		}
+		par(asStream, asStream)
+	})
+	add("wrap/one connection: unary-as-stream||unknown method||unknown stream", func() {
+		conn := wrap.ServerToClient(tp.TestApi_ServiceDesc, &apiServer{})
+		par(func() {
+			if cs, err := conn.NewStream(bg, &grpc.StreamDesc{}, "/sc.go.test.TestApi/Unary"); err == nil {
+				cs.CloseSend()
+			}
+		},
+			func() { _ = conn.Invoke(bg, "/sc.go.test.TestApi/Nope", &tp.UnaryRequest{}, &tp.UnaryResponse{}) },
+			func() { _, _ = conn.NewStream(bg, &grpc.StreamDesc{ServerStreams: true}, "/sc.go.test.TestApi/Nope") })
+	})
 	add("wrap/server-stream(header,trailer)", func() {
 		conn := wrap.ServerToClient(tp.TestApi_ServiceDesc, &apiServer{})
 		c := tp.NewTestApiClient(conn)
